@@ -302,6 +302,105 @@ mutual
       exact leaves2Variants_dst ρ ρ' (.cons fs' vs') s d k H
 end
 
+/-! ## The discriminants the clone writes are the ones the walk over the copy reads -/
+
+theorem tags_append (xs ys : List Ev) : tags (xs ++ ys) = tags xs ++ tags ys := by
+  induction xs with
+  | nil => rfl
+  | cons e es ih => cases e <;> simp [tags, ih]
+
+mutual
+  theorem cloneTy_tags (ρ : Nat → Nat) :
+      ∀ (t : GTy) (s d : Nat), tags (cloneTy prog ρ t s d) = discs2 ρ t s d
+    | .leaf _ _ _ dr, s, d => by cases dr <;> simp [cloneTy, discs2, tags]
+    | .record fs, s, d => by simp only [cloneTy, discs2]; exact cloneFields_tags ρ fs s d _
+    | .enum vs, s, d => by
+      simp only [cloneTy, discs2, tags, List.cons.injEq, true_and]
+      exact cloneVariants_tags ρ vs s d _
+  theorem cloneFields_tags (ρ : Nat → Nat) :
+      ∀ (fs : GTys) (s d : Nat) (b : Builder),
+        tags (cloneFields prog ρ fs s d b) = discs2Fields ρ fs s d b
+    | .nil, _, _, _ => by simp [cloneFields, discs2Fields, tags]
+    | .cons t ts, s, d, b => by
+      simp only [cloneFields, discs2Fields, run_cloneRecord, tags_append, cloneFields_tags ρ ts]
+      cases hnd : needsDrop t with
+      | true => simp only [if_true, cloneTy_tags ρ t]
+      | false => simp [tags]
+  theorem cloneVariants_tags (ρ : Nat → Nat) :
+      ∀ (vs : GVars) (s d k : Nat),
+        tags (cloneVariants prog ρ vs s d k) = discs2Variants ρ vs s d k
+    | .nil, _, _, _ => by simp [cloneVariants, discs2Variants, tags]
+    | .cons fs .nil, s, d, k => by
+      simp only [cloneVariants, discs2Variants, pre_cloneEnum]; exact cloneVFields_tags ρ fs s d _
+    | .cons fs (.cons fs' vs'), s, d, 0 => by
+      simp only [cloneVariants, discs2Variants, pre_cloneEnum]; exact cloneVFields_tags ρ fs s d _
+    | .cons fs (.cons fs' vs'), s, d, k + 1 => by
+      simp only [cloneVariants, discs2Variants]; exact cloneVariants_tags ρ (.cons fs' vs') s d k
+  theorem cloneVFields_tags (ρ : Nat → Nat) :
+      ∀ (fs : GTys) (s d : Nat) (b : Builder),
+        tags (cloneVFields prog ρ fs s d b) = discs2Fields ρ fs s d b
+    | .nil, _, _, _ => by simp [cloneVFields, discs2Fields, tags]
+    | .cons t ts, s, d, b => by
+      simp only [cloneVFields, discs2Fields, run_cloneEnum, tags_append, cloneVFields_tags ρ ts]
+      cases hnd : needsDrop t with
+      | true => simp only [if_true, cloneTy_tags ρ t]
+      | false => simp [tags]
+end
+
+/-- `ρ'` holds at every destination what `ρ` holds at the source -/
+def Agree (ρ ρ' : Nat → Nat) (ps : List (Nat × Nat)) : Prop := ∀ p ∈ ps, ρ' p.2 = ρ p.1
+
+theorem Agree.left {ρ ρ' : Nat → Nat} {xs ys : List (Nat × Nat)} (h : Agree ρ ρ' (xs ++ ys)) :
+    Agree ρ ρ' xs := fun p hp => h p (List.mem_append_left _ hp)
+
+theorem Agree.right {ρ ρ' : Nat → Nat} {xs ys : List (Nat × Nat)} (h : Agree ρ ρ' (xs ++ ys)) :
+    Agree ρ ρ' ys := fun p hp => h p (List.mem_append_right _ hp)
+
+mutual
+  theorem leaves2_dst' (ρ ρ' : Nat → Nat) :
+      ∀ (t : GTy) (s d : Nat), Agree ρ ρ' (discs2 ρ t s d) →
+        (leaves2 ρ t s d).map dstOf = leaves ρ' t d
+    | .leaf _ _ _ dr, s, d, _ => by cases dr <;> simp [leaves2, leaves, dstOf]
+    | .record fs, s, d, H => by
+      simp only [discs2] at H
+      simp only [leaves2, leaves]; exact leaves2Fields_dst' ρ ρ' fs s d _ H
+    | .enum vs, s, d, H => by
+      simp only [discs2] at H
+      have h0 : ρ' d = ρ s := H (s, d) (List.mem_cons_self ..)
+      have H' : Agree ρ ρ' (discs2Variants ρ vs s d (ρ s)) :=
+        fun p hp => H p (List.mem_cons_of_mem _ hp)
+      simp only [leaves2, leaves, h0]; exact leaves2Variants_dst' ρ ρ' vs s d _ H'
+  theorem leaves2Fields_dst' (ρ ρ' : Nat → Nat) :
+      ∀ (fs : GTys) (s d : Nat) (b : Builder), Agree ρ ρ' (discs2Fields ρ fs s d b) →
+        (leaves2Fields ρ fs s d b).map dstOf = leavesFields ρ' fs d b
+    | .nil, _, _, _, _ => by simp [leaves2Fields, leavesFields]
+    | .cons t ts, s, d, b, H => by
+      simp only [discs2Fields] at H
+      simp only [leaves2Fields, leavesFields, List.map_append,
+        leaves2Fields_dst' ρ ρ' ts s d _ H.right]
+      cases hnd : needsDrop t with
+      | true =>
+        have Hl := H.left
+        simp only [hnd, if_true] at Hl
+        rw [leaves2_dst' ρ ρ' t _ _ Hl]
+      | false =>
+        rw [leaves2_nil ρ t _ _ hnd, leaves_nil ρ' t _ hnd]; rfl
+  theorem leaves2Variants_dst' (ρ ρ' : Nat → Nat) :
+      ∀ (vs : GVars) (s d k : Nat), Agree ρ ρ' (discs2Variants ρ vs s d k) →
+        (leaves2Variants ρ vs s d k).map dstOf = leavesVariants ρ' vs d k
+    | .nil, _, _, _, _ => by simp [leaves2Variants, leavesVariants]
+    | .cons fs .nil, s, d, k, H => by
+      simp only [discs2Variants] at H
+      simp only [leaves2Variants, leavesVariants]; exact leaves2Fields_dst' ρ ρ' fs s d _ H
+    | .cons fs (.cons fs' vs'), s, d, 0, H => by
+      simp only [discs2Variants] at H
+      simp only [leaves2Variants, leavesVariants]; exact leaves2Fields_dst' ρ ρ' fs s d _ H
+    | .cons fs (.cons fs' vs'), s, d, k + 1, H => by
+      simp only [discs2Variants] at H
+      simp only [leaves2Variants, leavesVariants]
+      exact leaves2Variants_dst' ρ ρ' (.cons fs' vs') s d k H
+end
+
 theorem dropped_map_mkDrop (l : List (Nat × Nat)) : dropped (l.map mkDrop) = l := by
   induction l with
   | nil => rfl
